@@ -69,6 +69,11 @@ where
                     b'+' => decoded |= 62_u32 << (6 * (3 - i)),
                     b'/' => decoded |= 63_u32 << (6 * (3 - i)),
                     b'=' => {
+                        // Padding can only stand for the last one or two symbols of a group
+                        if i < 2 {
+                            return Err(());
+                        }
+
                         broken = i;
                         break;
                     }
